@@ -36,4 +36,35 @@ def idx(taxa, t):
 	for i, x in enumerate(taxa):
 		if x is t:
 			return i
-	raise ValueError('foreign taxon returned')
+	return f'FOREIGN:{getattr(t, "name", t)!r}'        # an object that does not belong to the taxonomy being classified against
+
+
+# ------------------------------------------------------------------------------------------------ persisted taxonomies
+# Several databases that share primary keys, external keys and names of their taxa but differ in shape / thresholds / report flags:
+# anything the classifier remembers about "taxon 3" from one database (or from before an edit) is wrong for the next one.
+
+WORLDS = [
+	dict(parent=(None, 0, 1, 2), thr=(0.75, 0.5, None, 0.25), report=(True, True, True, True), placement=(3, 3, 2)),
+	dict(parent=(None, 0, 1, 2), thr=(0.25, 0.75, 0.5, None), report=(True, False, True, False), placement=(3, 3, 2)),
+	dict(parent=(None, 0, 0, None), thr=(0.5, 0.25, 0.25, 0.75), report=(False, True, True, True), placement=(1, 2, 3)),
+	dict(parent=(None, None, 1, 1), thr=(None, 0.75, None, 0.5), report=(True, True, False, True), placement=(0, 2, 3)),
+	dict(parent=(None, 0, 1, 1), thr=(0.3, 0.3, 0.25, 0.5), report=(True, True, True, False), placement=(2, 3, 1)),
+]
+
+
+def write_world(path, w):
+	from mc import fixtures
+	n = len(w['parent'])
+	taxa = [dict(name=f'<T{i}>', key=f'k{i}', parent=w['parent'][i], thr=w['thr'][i], report=w['report'][i], rank='r', ncbi_id=100 + i) for i in range(n)]
+	genomes = [dict(key=f'g{j}', description=f'genome {j}', taxon=t) for j, t in enumerate(w['placement'])]
+	fixtures.write_genome_db(path, taxa, genomes)
+
+
+def open_world(path):
+	"""-> (session, taxa in specification order, annotated genomes ordered by genome key)"""
+	from gambit.db.refdb import load_genomeset
+	from gambit.db.models import Taxon, AnnotatedGenome, Genome
+	session, gset = load_genomeset(path)
+	taxa = session.query(Taxon).order_by(Taxon.key).all()      # k0, k1, ... = creation order of the specification (primary keys may be assigned in another order)
+	genomes = session.query(AnnotatedGenome).join(Genome).order_by(Genome.key).all()
+	return session, taxa, genomes
